@@ -17,9 +17,11 @@ def stateful_program(rng):
     L = ["class Counter { public static int hits = 0; public static int[] hist = {0, 0, 0}; public constructor() -> Counter = default;",
          "    public static function hit() -> int { hits = hits + 1; hist[hits % 3] = hist[hits % 3] + 1; return hits; } }",
          "class Box<T> { public T v; public static int made = 0; public constructor(T v) -> Box<T> { this.v = v; made = made + 1; return this; }",
-         "    public function count() -> int { return made; } }",
+         "    public function count() -> int { return made; }",
+         "    public static function of(T v) -> Box<T> { return new Box<T>(v); } }",
          "class A { public int x = %d; public constructor() -> A = default; }" % n,
          "class B extends A { public int y = %d; public constructor() -> B = default; }" % k,
+         "class Solo { public int s = 9; public constructor() -> Solo = default; }",
          "class Held { @tracked public qubit hq; public constructor() -> Held = default; }",
          "function fill(int m) -> int { final int sz = %d; int[sz] buf; int i = 0; int s = 0; while (i < sz) { buf[i] = i + m; s = s + buf[i]; i = i + 1; } return s; }" % (k + 1),
          "@quantum function flip(qubit q) -> bit { h(q); bit r = measure q; return r; }",
@@ -30,6 +32,7 @@ def stateful_program(rng):
          "    if (Counter.hits == 2) { echo(\"two\"); } else { echo(\"not two\"); }",
          "    Box<A> ba = new Box<A>(new A()); Box<B> bb = new Box<B>(new B()); Box<B> bc = new Box<>(new B());",
          "    echo(ba.count()); echo(bc.count()); echo(bc.v.y + ba.v.x);",
+         "    Box<Solo> bf = Box.of(new Solo()); echo(bf.v.s + bf.count());",
          "    echo(fill(%d));" % n,
          "    @tracked qubit t; qubit[%d] reg;" % (n + 1),
          "    echo(flip(t));",
